@@ -630,3 +630,159 @@ theorem stackLe_step_stmt {s s' : State} {op : Op} (hm : s.mode = .running)
   | use n tag => simp only [step, hm] at h; exact key h
 
 end Trion.Scope
+
+namespace Trion.Scope
+
+/-! ## exact effect of the table primitives -/
+
+theorem insertConstant_loc_char {s s' : State} {n : Bytes} {v : Int} {r : Except CErr Bool}
+    (h : insertConstant s n v .loc = .ok (s', r)) :
+    s'.globals = s.globals ∧ (s'.locals = s.locals ∨
+      ∃ l, s.locals = some l ∧ (∀ w, l.find n ≠ some (some w)) ∧ s'.locals = some (l.set n (some v))) := by
+  unfold insertConstant at h
+  split at h
+  · cases h; exact ⟨rfl, .inl rfl⟩
+  · simp only at h
+    split at h
+    · cases h
+    · rename_i l hl
+      split at h <;> cases h
+      · rename_i hf; exact ⟨rfl, .inr ⟨l, hl, by simp [hf], rfl⟩⟩
+      · rename_i hf; exact ⟨rfl, .inr ⟨l, hl, by simp [hf], rfl⟩⟩
+      · exact ⟨rfl, .inl rfl⟩
+
+theorem insertConstant_glob_char {s s' : State} {n : Bytes} {v : Int} {r : Except CErr Bool}
+    (h : insertConstant s n v .global = .ok (s', r)) :
+    s'.locals = s.locals ∧ (s'.globals = s.globals ∨
+      ((∀ w, s.globals.find n ≠ some (some w)) ∧ s'.globals = s.globals.set n (some v))) := by
+  unfold insertConstant at h
+  split at h
+  · cases h; exact ⟨rfl, .inl rfl⟩
+  · simp only at h
+    split at h <;> cases h
+    · rename_i hf; exact ⟨rfl, .inr ⟨by simp [hf], rfl⟩⟩
+    · rename_i hf; exact ⟨rfl, .inr ⟨by simp [hf], rfl⟩⟩
+    · exact ⟨rfl, .inl rfl⟩
+
+theorem deferConstant_loc_char {s s' : State} {n : Bytes} {r : Except CErr Unit}
+    (h : deferConstant s n .loc = .ok (s', r)) :
+    s'.globals = s.globals ∧ (s'.locals = s.locals ∨
+      ∃ l, s.locals = some l ∧ l.find n = none ∧ s'.locals = some (l.set n none)) := by
+  unfold deferConstant at h
+  split at h
+  · cases h; exact ⟨rfl, .inl rfl⟩
+  · simp only at h
+    split at h
+    · cases h
+    · rename_i l hl
+      split at h <;> cases h
+      · exact ⟨rfl, .inl rfl⟩
+      · rename_i hf; exact ⟨rfl, .inr ⟨l, hl, hf, rfl⟩⟩
+
+theorem deferConstant_glob_char {s s' : State} {n : Bytes} {r : Except CErr Unit}
+    (h : deferConstant s n .global = .ok (s', r)) :
+    s'.locals = s.locals ∧ (s'.globals = s.globals ∨
+      (s.globals.find n = none ∧ s'.globals = s.globals.set n none)) := by
+  unfold deferConstant at h
+  split at h
+  · cases h; exact ⟨rfl, .inl rfl⟩
+  · simp only at h
+    split at h <;> cases h
+    · exact ⟨rfl, .inl rfl⟩
+    · rename_i hf; exact ⟨rfl, .inr ⟨hf, rfl⟩⟩
+
+theorem addTask_tables {s s' : State} {t : Task} {r : Realm} (h : addTask s t r = .ok s') :
+    s'.locals = s.locals ∧ s'.globals = s.globals := by
+  unfold addTask at h
+  cases r with
+  | global => cases h; exact ⟨rfl, rfl⟩
+  | loc =>
+    simp only at h
+    split at h
+    · cases h
+    · cases h; exact ⟨rfl, rfl⟩
+
+theorem getConstant_loc {s : State} {n : Bytes} {l : Table} (hl : s.locals = some l) :
+    getConstant s n .loc = .ok (l.get n) := by
+  simp [getConstant, hl]
+
+theorem get_found {t : Table} {n : Bytes} {v : Int} (h : t.get n = .found v) : t.find n = some (some v) := by
+  unfold Table.get at h
+  split at h <;> simp_all
+
+theorem get_notFound {t : Table} {n : Bytes} (h : t.get n = .notFound) : t.find n = none := by
+  unfold Table.get at h
+  split at h <;> simp_all
+
+theorem get_deferred {t : Table} {n : Bytes} (h : t.get n = .deferred) : t.find n = some none := by
+  unfold Table.get at h
+  split at h <;> simp_all
+
+/-- `applyUse` never touches a table -/
+theorem applyUse_tables {s s' : State} {n : Bytes} {c c' : Option Int} {tag stage : Nat} {b : Bool}
+    {r : Except Level DataOp} (h : applyUse s n c tag stage b = .ok (s', r, c')) :
+    s'.locals = s.locals ∧ s'.globals = s.globals := by
+  have wv : ∀ v, (writeVal s tag v stage).1.locals = s.locals ∧ (writeVal s tag v stage).1.globals = s.globals := by
+    intro v; unfold writeVal; split <;> exact ⟨rfl, rfl⟩
+  unfold applyUse at h
+  split at h
+  · rename_i v
+    split at h <;> (rename_i hw; cases h; have := wv v; rw [hw] at this; exact this)
+  · split at h
+    · cases h; exact ⟨rfl, rfl⟩
+    · split at h
+      · cases h
+      · split at h <;> cases h <;> exact ⟨rfl, rfl⟩
+      · cases h; exact ⟨rfl, rfl⟩
+      · rename_i v _
+        split at h <;> (rename_i hw; cases h; have := wv v; rw [hw] at this; exact this)
+
+theorem runUse_tables {s s' : State} {n : Bytes} {c : Option Int} {tag : Nat} {g : Bool} {r : Option Level}
+    (h : runUse s n c tag g = .ok (s', r)) : s'.locals = s.locals ∧ s'.globals = s.globals := by
+  unfold runUse at h
+  split at h
+  · cases h
+  · rename_i ha; cases h; exact applyUse_tables ha
+  · rename_i ha
+    have e := applyUse_tables ha
+    split at h
+    · cases h; exact e
+    · split at h
+      · cases h
+      · rename_i hadd; cases h
+        have e2 := addTask_tables hadd
+        exact ⟨e2.1.trans e.1, e2.2.trans e.2⟩
+  · rename_i ha; cases h; exact applyUse_tables ha
+
+theorem doUse_tables {s s' : State} {n : Bytes} {tag : Nat} {r : Option Level}
+    (h : doUse s n tag = .ok (s', r)) : s'.locals = s.locals ∧ s'.globals = s.globals := by
+  unfold doUse at h
+  split at h
+  · cases h
+  · rename_i ha; cases h; exact applyUse_tables ha
+  · rename_i ha
+    have e := applyUse_tables ha
+    split at h
+    · cases h
+    · rename_i hadd; cases h
+      have e2 := addTask_tables hadd
+      exact ⟨e2.1.trans e.1, e2.2.trans e.2⟩
+
+end Trion.Scope
+
+namespace Trion.Scope
+
+theorem deferConstant_error {s s' : State} {n : Bytes} {r : Realm} {e : CErr}
+    (h : deferConstant s n r = .ok (s', .error e)) : s' = s := by
+  unfold deferConstant at h
+  split at h
+  · cases h; rfl
+  · cases r with
+    | global => simp only at h; split at h <;> cases h; rfl
+    | loc =>
+      simp only at h
+      split at h
+      · cases h
+      · split at h <;> cases h; rfl
+
+end Trion.Scope
